@@ -268,8 +268,40 @@ def run_case(case):
         return out
     # fused producer: the array handed to `argmax` is computed inside the same jitted function and is NOT returned from it
     # (returning it would force XLA to materialise it once, which hides a double evaluation)
-    kind = r.choice(["muladd", "log", "interp", "grid2", "grid2", "grid2"])
+    kind = r.choice(["muladd", "log", "interp", "grid2", "grid2", "grid2", "maskfused", "maskfused"])
     out["sig"] = f"fused kind={kind}"
+    if kind == "maskfused":
+        # the *mask* is produced inside the jitted function (a budget constraint with runtime coefficients whose bound is hit
+        # exactly by one grid point of every row); the values are plain inputs
+        n, m = r.randint(20, 200), r.choice([17, 37, 64])
+        cg = np.linspace(1.0, 400.0, m)
+        wv = np.linspace(1.0, 400.0, n)
+        price, tax = r.choice([(1.3, 0.95), (0.7, 1.1), (1.9, 0.35)])
+        ks = np.array([r.randrange(m) for _ in range(n)])
+        budget = price * cg[ks] + tax * wv
+
+        @jax.jit
+        def fusedm(cg, wv, budget, price, tax):
+            mask = price * cg[None, :] + tax * wv[:, None] <= budget[:, None]
+            a_ = jnp.broadcast_to(cg[None, :], mask.shape)
+            return argmax(a_, axis=1, where=mask, initial=-jnp.inf)
+
+        try:
+            ix, mx = (np.asarray(v) for v in fusedm(jnp.asarray(cg), jnp.asarray(wv), jnp.asarray(budget), price, tax))
+        except Exception as e:  # noqa: BLE001
+            vs.append({"clause": "argmax evaluates inside a jitted computation", "detail": f"{impl_site(e)}: {str(e)[:200]}", "key": "C18:eval"})
+            return out
+        out["evals"] = n
+        for i_ in range(n):
+            j_ = int(ix[i_])
+            # whatever the rounding of the mask is, the returned position must carry the returned maximum
+            if mx[i_] != -np.inf and cg[j_] != mx[i_]:
+                vs.append({"clause": "inside a jitted computation the returned position is an unmasked element attaining the masked maximum",
+                           "detail": f"maskfused price={price} tax={tax} grid {m} row {i_}: position {j_} has value {cg[j_]!r} but the reported maximum is {float(mx[i_])!r} (the mask price*c + tax*w <= budget is computed inside the jitted function)",
+                           "key": "C18:fused"})
+                break
+        out["sample"] = {"fused": kind, "rows": n, "row_length": m}
+        return out
     if kind == "grid2":
         # the shape of the continuous problem of lcm: rows = states, last two axes = product of two choice grids, the
         # objective is transcendental in the grid values and the mask is a budget constraint
